@@ -5,7 +5,7 @@ import json
 import os
 import time
 
-from . import VERIF, AnalysisError
+from . import VERIF, AnalysisError, Decided
 
 LEVEL = 'other'
 
@@ -89,6 +89,9 @@ class Check:
 
     def require(self, cond, msg):
         if not cond:
+            if self.findings:
+                self.note(f'analysis stopped early: {msg}')
+                raise Decided(self, f'{self.pid}: {msg}')
             raise AnalysisError(f'{self.pid}: {msg}')
 
     def note(self, s):
@@ -98,7 +101,7 @@ class Check:
     def finish(self, explanation, rule_text, assumptions, not_decided):
         """Check minimum instance counts, match known findings, write evidence, print verdict; returns exit code."""
         for rid, r in self.rules.items():
-            if r['instances'] < r['min']:
+            if r['instances'] < r['min'] and not self.findings:
                 raise AnalysisError(
                     f'{self.pid}/{rid}: found {r["instances"]} obligation source(s), expected at least {r["min"]} '
                     f'({r["description"]}) -- the anchor constructs vanished or are no longer recognised')
